@@ -792,6 +792,42 @@ FLUSH_JOB_ZUC256_EEA3:
         mov     word [%%OOO + _zuc_init_not_done], 0
 %endmacro
 
+;; Clear the keystream (_zuc_args_KS) of the lanes set in a 16-bit lane mask.
+;; Keystream is stored in 4 groups of 512 bytes: group G holds lanes
+;; G, G+4, G+8 and G+12, interleaved in 16-byte chunks, i.e. chunk K (0-7)
+;; of lane L is at (L % 4)*512 + K*64 + (L / 4)*16 (see GET_KS() in
+;; zuc_x16_avx512.asm). Every lane bit is expanded to 4 bits (one per dword)
+;; and the bits of lanes G, G+4, G+8, G+12 are gathered into the store mask
+;; of group G.
+%macro CLEAR_ZUC_EIA3_KS 6
+%define %%OOO           %1 ; [in] Pointer to ZUC OOO manager
+%define %%LANE_MASK     %2 ; [in/clobbered] GP register with 16-bit lane mask
+%define %%TMP1          %3 ; [clobbered] Temporary GP register
+%define %%TMP2          %4 ; [clobbered] Temporary GP register
+%define %%ZERO          %5 ; [clobbered] ZMM register
+%define %%KTMP          %6 ; [clobbered] Temporary K mask
+
+        vpxorq  %%ZERO, %%ZERO, %%ZERO
+        mov     %%TMP2, 0x1111111111111111
+        pdep    %%TMP1, %%LANE_MASK, %%TMP2
+        imul    %%TMP1, %%TMP1, 0xf     ; lane N -> bits [4*N + 3 : 4*N]
+        mov     %%TMP2, 0x000f000f000f000f
+%assign %%G 0
+%rep 4
+        pext    %%LANE_MASK, %%TMP1, %%TMP2
+        kmovw   %%KTMP, DWORD(%%LANE_MASK)
+%assign %%K 0
+%rep 8
+        vmovdqa32 [%%OOO + _zuc_args_KS + %%G*512 + %%K*64]{%%KTMP}, %%ZERO
+%assign %%K (%%K + 1)
+%endrep
+%if %%G != 3
+        shr     %%TMP1, 4
+%endif
+%assign %%G (%%G + 1)
+%endrep
+%endmacro
+
 %macro SUBMIT_JOB_ZUC_EIA3 2
 %define %%KEY_SIZE      %1 ; [constant] Key size (128 or 256)
 %define %%TAG_SIZE      %2 ; [constant] Tag size (4, 8 or 16 bytes)
@@ -989,6 +1025,12 @@ FLUSH_JOB_ZUC256_EEA3:
         vmovdqa32       [state + _zuc_state + i*64]{k1}, zmm0
 %assign i (i + 1)
 %endrep
+%endif
+
+%ifdef SAFE_DATA
+        ; Clear keystream of lane that is returned (k1 is set above)
+        kmovw           DWORD(tmp), k1
+        CLEAR_ZUC_EIA3_KS state, tmp, tmp2, tmp3, zmm0, k2
 %endif
 
 %%return_submit_eia3:
@@ -1191,6 +1233,12 @@ FLUSH_JOB_ZUC256_EEA3:
         vmovdqa32       [state + _zuc_state + i*64]{k1}, zmm0
 %assign i (i + 1)
 %endrep
+%endif
+
+%ifdef SAFE_DATA
+        ; Clear keystream of the same lanes (lane that is returned and NULL lanes)
+        kmovw           DWORD(tmp3), k1
+        CLEAR_ZUC_EIA3_KS state, tmp3, tmp4, tmp, zmm0, k2
 %endif
 
 %ifdef SAFE_DATA
